@@ -4,6 +4,7 @@ C06 — Built rules are byte-exact kernel audit_rule_data for what was asked.
 UAPI numbers. The constants/tables are regenerated from the Go sources on every run.
 -/
 import LA.Proofs.Rule
+import LA.Proofs.RuleBounds
 import LA.Spec.RuleUapi
 
 namespace LA.Rule
@@ -164,6 +165,64 @@ theorem C06_layout (r : RuleData) (b : Bytes) (hw : WordsOk r) (h : toWire r = R
           omega
       · simp [storeAll, hc, hv, hf, bind, Bind.bind] at h
     · simp [storeAll, hc, hv, bind, Bind.bind] at h
+
+theorem wordsOk_of_inv {r : RuleData} (hi : WordsInv r) (hl : r.trips.length ≤ 64) : WordsOk r := by
+  refine ⟨hi.flags, hi.action, ?_, ?_, ?_, hi.syscalls, ?_⟩
+  · intro w hw
+    obtain ⟨t, ht, rfl⟩ := List.mem_map.mp hw
+    exact (hi.trips t ht).1
+  · intro w hw
+    obtain ⟨t, ht, rfl⟩ := List.mem_map.mp hw
+    exact (hi.trips t ht).2.1
+  · intro w hw
+    obtain ⟨t, ht, rfl⟩ := List.mem_map.mp hw
+    exact (hi.trips t ht).2.2
+  · have key : ∀ (ss : List Bytes), (∀ s ∈ ss, s.length ≤ 4096) → ss.flatten.length ≤ ss.length * 4096 := by
+      intro ss
+      induction ss with
+      | nil => intro _; simp
+      | cons s ss ih =>
+        intro h
+        have h1 := h s (List.mem_cons_self)
+        have h2 := ih (fun x hx => h x (List.mem_cons_of_mem _ hx))
+        simp only [List.flatten_cons, List.length_append, List.length_cons]
+        omega
+    have := key r.strings hi.strLen
+    have := hi.strCount
+    omega
+
+/-- The word-size side conditions of `C06_layout` hold for every rule data the encoder itself
+accumulates (`ruleDataOf` = the body of rule.Build before serialisation), given only that the
+OS user/group database returns 32-bit ids (`EnvOk`, the contract of os/user + ParseUint(…, 32)). -/
+theorem C06_words_ok (env : Env) (he : EnvOk env) (rule : Rule) (r : RuleData) (b : Bytes)
+    (h : ruleDataOf env rule = some r) (hb : toWire r = Res.ok b) : WordsOk r := by
+  have hi := inv_ruleDataOf he h
+  refine wordsOk_of_inv hi ?_
+  unfold toWire at hb
+  split at hb
+  · simp at hb
+  · rename_i hc
+    have : LA.Gen.RuleTables.maxFields = 64 := by decide
+    simp only [RuleData.fields, List.length_map] at hc
+    omega
+
+/-- C06 end to end for rule.Build: whenever Build returns bytes for a rule specification, the
+independent UAPI decoder reads back exactly what the accumulated rule data says. No side
+condition on the rule is left. -/
+theorem C06_build_layout (env : Env) (he : EnvOk env) (rule : Rule) (b : Bytes) (h : build env rule = Res.ok b) :
+    ∃ r, ruleDataOf env rule = some r ∧
+      LA.Spec.RuleLayout.decode b = some
+        { flags := r.flags, action := r.action, fieldCount := r.fields.length, mask := maskOf r,
+          fields := padTo 64 r.fields, values := padTo 64 r.values, fieldFlags := padTo 64 r.fieldFlags,
+          bufLen := r.strings.flatten.length, buf := r.strings.flatten,
+          padding := List.replicate ((4 - (1040 + r.strings.flatten.length) % 4) % 4) 0 } ∧
+      b.length = (1040 + r.strings.flatten.length + 3) / 4 * 4 ∧ r.fields.length ≤ 64 := by
+  unfold build at h
+  cases hr : ruleDataOf env rule with
+  | none => simp [hr] at h
+  | some r =>
+    simp only [hr] at h
+    exact ⟨r, rfl, C06_layout r b (C06_words_ok env he rule r b hr h) h⟩
 
 /-- The syscall mask has exactly the bits of the requested syscalls: bit `bit` of word `w` is set
 iff syscall number 32·w + bit was requested; or it is the all-syscalls pattern. -/
